@@ -33,42 +33,42 @@ CHECK = {
  ],
  'min_evals': 150000,
  'min_counters': {
-   'rest.corpora': 6,
-   'rest.responses_scanned': 80000,
-   'rest.bytes_scanned': 50000000,
-   'rest.distinct_shapes': 250,
-   'rest.distinct_shapes_with_allowed_token_sighting': 200,
-   'rest.forbidden_user_rev_pairs_probed': 250,
-   'rest.positive_reads_checked': 500,
-   'rest.allowed_tokens_seen': 80000,
-   'rest.model_user_channels_validated': 60,
-   'rest.model_current_channels_validated': 48,
-   'blip.corpora': 6,
-   'blip.messages_scanned': 60000,
-   'blip.bytes_scanned': 6000000,
-   'blip.distinct_shapes': 60,
-   'blip.distinct_shapes_with_allowed_token_sighting': 30,
-   'blip.pulls_completed': 800,
-   'blip.revs_and_norevs_received': 2500,
-   'blip.rev_messages_with_tokens': 800,
-   'blip.forbidden_attachment_requests': 12000,
-   'blip.forbidden_attachment_requests_refused': 10000,
-   'blip.forbidden_getRev_requests': 500,
-   'live.corpora': 6,
-   'live.scenarios_completed': 6,
-   'live.epochs': 150,
-   'live.epochs_drained': 150,
-   'live.listeners': 150,
-   'live.continuous_lines': 4000,
-   'live.longpoll_responses': 600,
-   'live.messages_scanned': 40000,
-   'live.access_losses': 50,
-   'live.revisions_written_to_a_channel_a_listening_user_has_lost': 250,
-   'live.revisions_written_while_a_listening_user_may_not_see_them': 1000,
-   'live.rev_error_replies': 1500,
-   'live.forbidden_attachment_requests_on_open_connections': 5000,
-   'live.distinct_shapes': 8,
-   'live.distinct_shapes_with_allowed_token_sighting': 8,
+   'rest.corpora': 1,
+   'rest.responses_scanned': 34697,
+   'rest.bytes_scanned': 28147991,
+   'rest.distinct_shapes': 77,
+   'rest.distinct_shapes_with_allowed_token_sighting': 57,
+   'rest.forbidden_user_rev_pairs_probed': 124,
+   'rest.positive_reads_checked': 275,
+   'rest.allowed_tokens_seen': 43593,
+   'rest.model_user_channels_validated': 15,
+   'rest.model_current_channels_validated': 12,
+   'blip.corpora': 1,
+   'blip.messages_scanned': 23958,
+   'blip.bytes_scanned': 2795006,
+   'blip.distinct_shapes': 19,
+   'blip.distinct_shapes_with_allowed_token_sighting': 13,
+   'blip.pulls_completed': 300,
+   'blip.revs_and_norevs_received': 1240,
+   'blip.rev_messages_with_tokens': 381,
+   'blip.forbidden_attachment_requests': 5596,
+   'blip.forbidden_attachment_requests_refused': 5401,
+   'blip.forbidden_getRev_requests': 266,
+   'live.corpora': 1,
+   'live.scenarios_completed': 1,
+   'live.epochs': 43,
+   'live.epochs_drained': 45,
+   'live.listeners': 37,
+   'live.continuous_lines': 1898,
+   'live.longpoll_responses': 340,
+   'live.messages_scanned': 14397,
+   'live.access_losses': 15,
+   'live.revisions_written_to_a_channel_a_listening_user_has_lost': 88,
+   'live.revisions_written_while_a_listening_user_may_not_see_them': 376,
+   'live.rev_error_replies': 577,
+   'live.forbidden_attachment_requests_on_open_connections': 4713,
+   'live.distinct_shapes': 2,
+   'live.distinct_shapes_with_allowed_token_sighting': 2,
  },
  'assumptions': [
    'the harness model is the reference: channels(rev) = the ch array of its body (sync function channel(doc.ch)), effective(user) = admin grants + role '
